@@ -54,9 +54,9 @@ Proof.
   - destruct alive; [exact H|]. apply IH. exact H.
 Qed.
 
-Lemma coap_einv_response : forall s f, coap_einv s -> coap_einv (coap_response s f).
+Lemma coap_einv_response : forall s f nf, coap_einv s -> coap_einv (coap_response s f nf).
 Proof.
-  intros s f H. unfold coap_response. destruct (c_infl s); [|exact H].
+  intros s f nf H. unfold coap_response. destruct (c_infl s); [|exact H].
   destruct (snd (try_open _ f _)).
   - apply coap_einv_drain. cbn. apply einv_resp. exact H.
   - destruct (opens _ f); apply coap_einv_drain; cbn; [apply einv_resp|]; exact H.
@@ -84,8 +84,8 @@ Qed.
 Lemma coap_einv_step : forall s e, coap_einv s -> coap_einv (coap_step s e).
 Proof.
   intros s e H.
-  assert (RA : forall i, coap_einv (coap_response_at s i)).
-  { intro i. unfold coap_response_at. destruct (c_infl s) eqn:Q; [|exact H].
+  assert (RA : forall i nf, coap_einv (coap_response_at s i nf)).
+  { intros i nf. unfold coap_response_at. destruct (c_infl s) eqn:Q; [|exact H].
     apply (coap_einv_response (coap_setsrv s (Nat.max (c_srv s) (S i)))). exact H. }
   assert (EA : forall i, coap_einv (coap_event_at s i)).
   { intro i. unfold coap_event_at. apply (coap_einv_event (coap_setesrv s (Nat.max (c_esrv s) (S i)))). exact H. }
@@ -128,9 +128,9 @@ Proof.
     destruct alive; [exact H'|]. apply IH. exact H'.
 Qed.
 
-Lemma coap_sinv_response : forall s f, coap_sinv s -> coap_sinv (coap_response s f).
+Lemma coap_sinv_response : forall s f nf, coap_sinv s -> coap_sinv (coap_response s f nf).
 Proof.
-  intros s f H. unfold coap_response. destruct (c_infl s); [|exact H].
+  intros s f nf H. unfold coap_response. destruct (c_infl s); [|exact H].
   destruct (snd (try_open _ f _)); [apply coap_sinv_drain; exact H|].
   destruct (opens _ f); apply coap_sinv_drain; exact H.
 Qed.
@@ -146,8 +146,8 @@ Proof. intros s f H. unfold coap_event. destruct (opens _ f); exact H. Qed.
 Lemma coap_sinv_step : forall s e, coap_sinv s -> coap_sinv (coap_step s e).
 Proof.
   intros s e H.
-  assert (RA : forall i, coap_sinv (coap_response_at s i)).
-  { intro i. unfold coap_response_at. destruct (c_infl s) eqn:Q; [|exact H].
+  assert (RA : forall i nf, coap_sinv (coap_response_at s i nf)).
+  { intros i nf. unfold coap_response_at. destruct (c_infl s) eqn:Q; [|exact H].
     apply (coap_sinv_response (coap_setsrv s (Nat.max (c_srv s) (S i)))). exact H. }
   assert (EA : forall i, coap_sinv (coap_event_at s i)).
   { intro i. unfold coap_event_at. apply (coap_sinv_event (coap_setesrv s (Nat.max (c_esrv s) (S i)))). exact H. }
@@ -256,9 +256,9 @@ Proof.
       cbn [l_seal l_acc add_out add_seal]. apply cinv_seal1. apply H. exact K.
 Qed.
 
-Lemma coap_jinv_response : forall s f, coap_jinv s -> coap_jinv (coap_response s f).
+Lemma coap_jinv_response : forall s f nf, coap_jinv s -> coap_jinv (coap_response s f nf).
 Proof.
-  intros s f H. unfold coap_response. destruct (c_infl s) as [id|]; [|exact H].
+  intros s f nf H. unfold coap_response. destruct (c_infl s) as [id|]; [|exact H].
   unfold coap_cands.
   destruct (try_open_first (c_ep s, A2C) f (c_recv s)
               (seq (c_recv s - Nat.min 5 (c_recv s)) (Nat.min 5 (c_recv s)) ++ seq (S (c_recv s)) 5))
@@ -295,8 +295,8 @@ Qed.
 Lemma coap_jinv_step : forall s e, coap_jinv s -> coap_jinv (coap_step s e).
 Proof.
   intros s e H.
-  assert (RA : forall i, coap_jinv (coap_response_at s i)).
-  { intro i. unfold coap_response_at. destruct (c_infl s) eqn:Q; [|exact H].
+  assert (RA : forall i nf, coap_jinv (coap_response_at s i nf)).
+  { intros i nf. unfold coap_response_at. destruct (c_infl s) eqn:Q; [|exact H].
     apply (coap_jinv_response (coap_setsrv s (Nat.max (c_srv s) (S i)))). exact H. }
   assert (EA : forall i, coap_jinv (coap_event_at s i)).
   { intro i. unfold coap_event_at. apply (coap_jinv_event (coap_setesrv s (Nat.max (c_esrv s) (S i)))). exact H. }
@@ -357,3 +357,105 @@ Proof. exists wit_reuse. exact coap_nonce_reuse_refuted_l. Qed.
 
 Lemma coap_wire_nonce_reuse_refuted_ex : exists h, ~ NoDup (l_wire (c_log (coap_run coap_init h))).
 Proof. exists wit_wire_reuse. exact coap_wire_nonce_reuse_refuted_l. Qed.
+
+(* --------------------------------------------- a dead context transmits nothing
+   (coap_ctx = None after a timeout, a 4.04 response or a failed resynchronisation:
+   post_bytes still encrypts, but self.coap_ctx.request raises AttributeError) *)
+Definition not_reconnect (e : ev) : bool := match e with Reconnect => false | _ => true end.
+
+Lemma coap_drain_dead : forall w ep send recv evt srv esrv nreq L,
+    let s' := coap_drain ep send recv evt false srv esrv nreq L w in
+    c_alive s' = false /\ l_wire (c_log s') = l_wire L.
+Proof.
+  induction w as [|id r IH]; intros ep send recv evt srv esrv nreq L; cbn [coap_drain].
+  - split; reflexivity.
+  - destruct (IH ep (S send) recv evt srv esrv nreq (add_out [(ep, id, RCrash)] (add_seal [((ep, C2A), send)] L))) as (A & B).
+    split; [exact A|]. rewrite B. reflexivity.
+Qed.
+
+Lemma coap_response_dead : forall s f nf,
+    c_alive s = false ->
+    c_alive (coap_response s f nf) = false /\ l_wire (c_log (coap_response s f nf)) = l_wire (c_log s).
+Proof.
+  intros s f nf D. unfold coap_response. destruct (c_infl s); [|split; [exact D|reflexivity]].
+  rewrite D. replace (if nf then false else false) with false by (destruct nf; reflexivity).
+  destruct (snd (try_open _ f _)); [|destruct (opens _ f)]; match goal with
+  | |- context [coap_drain ?a ?b ?c ?d false ?e ?g ?h ?L ?w] => destruct (coap_drain_dead w a b c d e g h L) as (A & B)
+  end; (split; [exact A|rewrite B; reflexivity]).
+Qed.
+
+Lemma coap_abort_dead : forall s c k,
+    c_alive s = false ->
+    c_alive (coap_abort s c k) = false /\ l_wire (c_log (coap_abort s c k)) = l_wire (c_log s).
+Proof.
+  intros s c k D. unfold coap_abort. destruct (c_infl s); [|split; [exact D|reflexivity]].
+  rewrite D. replace (if k then false else false) with false by (destruct k; reflexivity).
+  match goal with
+  | |- context [coap_drain ?a ?b ?c ?d false ?e ?g ?h ?L ?w] => destruct (coap_drain_dead w a b c d e g h L) as (A & B)
+  end. split; [exact A|rewrite B; reflexivity].
+Qed.
+
+Lemma coap_event_dead : forall s f,
+    c_alive (coap_event s f) = c_alive s /\ l_wire (c_log (coap_event s f)) = l_wire (c_log s).
+Proof. intros s f. unfold coap_event. destruct (opens _ f); split; reflexivity. Qed.
+
+Lemma coap_step_dead : forall s e,
+    c_alive s = false -> not_reconnect e = true ->
+    c_alive (coap_step s e) = false /\ l_wire (c_log (coap_step s e)) = l_wire (c_log s).
+Proof.
+  intros s e D NR.
+  assert (RA : forall i nf, c_alive (coap_response_at s i nf) = false
+                            /\ l_wire (c_log (coap_response_at s i nf)) = l_wire (c_log s)).
+  { intros i nf. unfold coap_response_at. destruct (c_infl s) eqn:Q; [|split; [exact D|reflexivity]].
+    apply (coap_response_dead (coap_setsrv s (Nat.max (c_srv s) (S i)))). exact D. }
+  assert (EA : forall i, c_alive (coap_event_at s i) = false
+                         /\ l_wire (c_log (coap_event_at s i)) = l_wire (c_log s)).
+  { intro i. unfold coap_event_at.
+    destruct (coap_event_dead (coap_setesrv s (Nat.max (c_esrv s) (S i))) (Genuine ((c_ep s, EVT), i))) as (A & B).
+    split; [rewrite A; exact D|exact B]. }
+  destruct e; cbn [coap_step]; try discriminate NR; try (split; [exact D|reflexivity]); try apply RA; try apply EA;
+    try (apply coap_abort_dead; exact D).
+  - (* Send *)
+    destruct (c_infl s); [split; [exact D|reflexivity]|]. rewrite D.
+    match goal with
+    | |- context [coap_drain ?a ?b ?c ?d false ?e ?g ?h ?L ?w] => destruct (coap_drain_dead w a b c d e g h L) as (A & B)
+    end. split; [exact A|rewrite B; reflexivity].
+  - (* ReplayOld *)
+    destruct (c_infl s); [|split; [exact D|reflexivity]]. destruct (c_ep s) eqn:E; [split; [exact D|reflexivity]|].
+    apply coap_response_dead. exact D.
+  - (* Corrupt *)
+    destruct (c_infl s) eqn:Q; [|split; [exact D|reflexivity]].
+    apply (coap_response_dead (coap_setsrv s (S (c_srv s)))). exact D.
+Qed.
+
+Lemma coap_dead_context_l : forall h s,
+    c_alive s = false -> forallb not_reconnect h = true ->
+    l_wire (c_log (coap_run s h)) = l_wire (c_log s).
+Proof.
+  induction h as [|e h IH]; intros s D NR; [reflexivity|].
+  cbn in NR. apply andb_true_iff in NR. destruct NR as [N1 N2].
+  destruct (coap_step_dead s e D N1) as (A & B). cbn [coap_run fold_left].
+  change (fold_left coap_step h (coap_step s e)) with (coap_run (coap_step s e) h).
+  rewrite (IH _ A N2). exact B.
+Qed.
+
+(* a 4.04 response to the in-flight request leaves the context dead *)
+Lemma coap_response_404_kills : forall s f, c_infl s <> None -> c_alive (coap_response s f true) = false.
+Proof.
+  intros s f I. unfold coap_response. destruct (c_infl s) as [id|]; [|contradiction].
+  assert (K : forall w ep send recv evt srv esrv nreq L, c_alive (coap_drain ep send recv evt false srv esrv nreq L w) = false).
+  { intros. apply coap_drain_dead. }
+  cbn [andb]. destruct (snd (try_open _ f _)); [apply K|]. destruct (opens _ f); apply K.
+Qed.
+
+Lemma coap_not_found_l : forall h1 h2,
+    c_infl (coap_run coap_init h1) <> None -> forallb not_reconnect h2 = true ->
+    l_wire (c_log (coap_run coap_init (h1 ++ Next404 :: h2)))
+    = l_wire (c_log (coap_run coap_init (h1 ++ [Next404]))).
+Proof.
+  intros h1 h2 I NR. unfold coap_run. rewrite !fold_left_app. cbn [fold_left].
+  set (s1 := fold_left coap_step h1 coap_init) in *.
+  apply (coap_dead_context_l h2 (coap_step s1 Next404)); [|exact NR].
+  cbn [coap_step]. unfold coap_response_at. destruct (c_infl s1) eqn:Q; [|contradiction].
+  apply coap_response_404_kills. cbn. rewrite Q. discriminate.
+Qed.
